@@ -973,6 +973,27 @@ def r18_constraints_activated(chk, prog, rule='R18'):
               'a normal return is reachable without executeGlobalConstraints()')
 
 
+def r19_pattern_check(chk, prog, rule='R19'):
+    """the pattern check accepts a value only if the WHOLE value matches the regular expression: the verdict comes from
+    std::regex_match (a search for a matching stretch somewhere inside the value - regex_search - would accept
+    '123abc' for [0-9]+), and a value that does not match ends in an exception"""
+    f = prog.one('celma::prog_args::detail::CheckPattern', 'checkValue')
+    names = {(c.get('callee') or '').split('::')[-1].split('<')[0] for c in f.calls() if
+             (c.get('callee') or '').startswith('std::regex_') or (c.get('callee') or '').startswith('boost::regex_')}
+    chk.check(names == {'regex_match'}, rule, f.name, 'the pattern check matches the whole value', f.loc(),
+              'uses %s' % (sorted(names) or 'no regular expression function'))
+    thr = [x for x in f.walk() if x.get('k') == 'CXXThrowExpr']
+    ok = False
+    for bid, cond in f.cfg.cond_blocks():
+        if cond is not None and any(y.get('k') in CALL_KINDS and 'regex_' in (y.get('callee') or '') for y in walk(cond)):
+            c0 = strip_all_casts(cond)
+            neg = c0.get('k') == 'UnaryOperator' and c0.get('op') == '!'
+            tgt = f.cfg.succ[bid][0 if neg else 1]
+            seen = f.cfg.reach((tgt, 0)) if tgt is not None else set()
+            ok = not any(p_[0] == 'exit_from' and f.cfg.exit_kind(p_[1]) == 'return' for p_ in seen) and bool(thr)
+    chk.check(ok, rule, f.name, 'a value that does not match is refused', f.loc())
+
+
 def run(chk):
     prog, units = rules.prog_args_program()
     chk.units = units
@@ -1023,5 +1044,7 @@ def run(chk):
     r17_disjoint_any_order(chk, prog)
     chk.rule('R18', 'argument and handler constraints are activated on every use of an argument', 2)
     r18_constraints_activated(chk, prog)
+    chk.rule('R19', 'the pattern check matches the whole value', 2)
+    r19_pattern_check(chk, prog)
     from . import c02_shapes
     c02_shapes.run(chk, prog)
